@@ -7,12 +7,15 @@ import (
 	"fmt"
 	"os"
 	"sort"
+	"time"
 
 	"verifsim/core"
 )
 
 type engine struct {
-	detlog *os.File
+	detlog      *os.File
+	sawViol     bool
+	statesAdded int
 }
 
 // derive: run seed -> (config, tape PRNG).  Nothing else is random.
@@ -35,7 +38,7 @@ func (e *engine) Run(env *core.Env, run int, res *core.Result) *core.Violation {
 	s := newSim(cfg, tape)
 	sample := len(res.Samples) < 3
 	if sample {
-		s.verbose, s.traceCap = true, 30
+		s.sample = true // trace the first 30 lines after the bootstrap
 	}
 	s.run()
 	env.J.Done()
@@ -59,7 +62,10 @@ func (e *engine) Run(env *core.Env, run int, res *core.Result) *core.Violation {
 	}
 	res.AddTrace(s.th, s.leaders > 0 && s.commits > 0 && s.nfault > 0)
 	for _, h := range s.states {
-		res.AddState(h)
+		if e.statesAdded < 400_000 { // keeps the worker's result file small in long tiers
+			res.AddState(h)
+			e.statesAdded++
+		}
 	}
 	if sample {
 		res.AddSample(map[string]any{"run": run, "config": cfg, "weights_order": kindNames, "first_events": s.trace})
@@ -74,6 +80,11 @@ func (e *engine) Run(env *core.Env, run int, res *core.Result) *core.Violation {
 	}
 	if s.viol == nil {
 		return nil
+	}
+	if !e.sawViol { // wall-clock time to the first detection: reporting only
+		e.sawViol = true
+		res.Count("first-violation-ms", time.Since(env.Start).Milliseconds())
+		res.Count("first-violation-run", int64(run))
 	}
 	c.Profile = ""
 	c.Tape = tape.Used()
